@@ -5,6 +5,7 @@ from cv import err, flow, pair, rules
 from cv.rules import events_of, order_after_success
 
 TITLE = "Storage errors never make the archive record wrong content or a false success"
+TECHNIQUE = 'static analysis: paired-state dataflow (buffer/queue), error-discipline classification of storage results over the call graph, dominance'
 EXPLANATION = (
     "Decided: (1) PAIR - the small-file buffer and the queue of offsets into it are reset together on every exit "
     "(success and error) of every FileCombiner method, so a failed combined-block write cannot leave queued files "
